@@ -25,6 +25,8 @@ CHECKS = {
         "scheme on exact phi functions: since a step is a degree-p polynomial in alpha whose coefficients are products of the scheme coefficients, "
         "this pins every coefficient on every lattice point. (b) every public semi-linear stepper x order 0-4 x small grids x states is compared with "
         "the same reference scheme on the documented symbol and the public nonlinear term, so the stepper-level claim follows compositionally. "
+        "(b') every semi-linear stepper class is also built with non-default dealiasing fraction and a coarse contour (M=6, r=0.8) and must equal the public "
+        "ETDRK-p integrator assembled by hand with those values (the numerical options reach the integrator and the nonlinear term). "
         "(c) dt-halving ladders confirm order p for 8 families. Bounded model checking is the right level: coefficients are per-mode functions of z only.",
         "Trusted: mc/ref.py (phi functions, reference scheme; self-tested for convergence order on a scalar complex ODE), numpy. z between lattice "
         "points and grids beyond the bounds are not covered; (b) relies on C03 for the nonlinear terms themselves.",
@@ -169,7 +171,9 @@ CHECKS = {
         "forms for all states), ternary and superposition states, C in {1,2,3}, D=1..3, odd/even N and three domain extents, and compared with explicit sums "
         "over the full complex spectrum: values, Parseval (spatial vs Fourier L2 family), resolution independence, L^D scaling, zero/positivity/symmetry/"
         "homogeneity axioms, channel additivity, H1 = plain + gradient aggregate, correlation range/value/+-1, mean_metric. Band-limited variants are "
-        "checked for ALL pairs 0<=low<=high<=N//2 and ALL 2^(N//2) partitions of the band range into consecutive bands.",
+        "checked for ALL pairs 0<=low<=high<=N//2 and ALL 2^(N//2) partitions of the band range into consecutive bands. The general norm / aggregator "
+        "functions and the named Fourier / H1 metrics are additionally run over the full product of inner / outer exponents, modes, band limits and "
+        "derivative orders against the documented formulas.",
         "Trusted: numpy FFT sums. Pair lattice thinned on the largest grids (stated in notes). Normalised variants with a vanishing reference (0/0) are outside the property and masked.",
         "DESIGN.md §4 C16",
     ),
@@ -188,19 +192,21 @@ CHECKS = {
         "offset/cutoff/limit/scale/exponent lattices, D=1..3, odd and even N and several keys; each draw is checked for shape (one channel per "
         "generated field), finiteness, bit-identical repetition with the same key, exact statistics, Fourier support (own FFT), power-law / diffusion "
         "shaping of the white noise of the same key, clamping limits reached, scale factors, member-wise key splitting of multi-channel wrappers, "
-        "agreement of function form and sampled form, and explicit formulas for the deterministic IC classes.",
+        "agreement of function form and sampled form, explicit formulas for the deterministic IC classes, and requested (non-default) amplitude / phase / "
+        "value / position / variance ranges of the random generators.",
         "Trusted: numpy statistics/FFT and the re-implemented formulas. Contract is per draw (no distributional claims). Degenerate draws with zero variance are skipped.",
         "DESIGN.md §4 C18",
     ),
     "C19": (
-        "bounded exhaustive exploration of a stiffness lattice x ETDRK orders x nonlinear terms and of every public stepper x orders, executed in two separate precision sessions whose result tables are joined",
+        "bounded exhaustive exploration of a stiffness lattice x ETDRK orders x nonlinear terms and of every public stepper x orders, executed in separate precision sessions (float32, x64, x64 enabled after the import) whose result tables are joined",
         "Each work unit spawns a default (float32) and an x64 interpreter. Both enumerate ETDRK orders 0-4 on z=lambda*dt from 0 down to -1e15 (real axis, "
         "imaginary axis and left-half-plane rays) with three user-defined nonlinear terms, an O(1) state and the zero state, and every catalogue stepper x "
         "order 0-4 x smooth states + zero state. The parent checks finiteness, that results carry the session's default precision (real and Fourier "
         "space), zero -> zero for unforced equations, agreement of the two sessions within 400*eps32*(1+|lambda dt|)*scale, and - in the x64 session - "
         "that the step does not lose double precision in its transforms (cross-check with numpy float64 FFTs) and that every precomputed array leaf of the "
         "stepper carries the session precision. A wide N scan requires all discrete decisions (wavenumber layout, dealiasing / low-pass / oddball masks, "
-        "scaling classes) to be identical in both sessions.",
+        "scaling classes) to be identical in both sessions. A third session imports the library in single precision and enables x64 afterwards; its "
+        "results must equal those of the x64 session (nothing frozen at import time).",
         "Trusted: numpy FFT for the x64 cross-check. For |z| > 1e3 only finiteness/dtype are claimed (single-precision rounding of z itself changes the phase). "
         "Double-precision fidelity of step_fourier is decided by C02.",
         "DESIGN.md §4 C19",
